@@ -587,6 +587,7 @@ func (s *S) Insert(coll string, docs []map[string]any, one bool) []string {
 				return nil
 			}
 			s.genIDs[id] = true
+			model.NoteGenerated(id)
 		}
 		nd := model.CopyDoc(d)
 		nd["_id"] = id
@@ -790,7 +791,7 @@ func keys(m map[string]bool) []string {
 	for k := range m {
 		out = append(out, k)
 	}
-	sort.Strings(out)
+	model.SortIDs(out)
 	return out
 }
 
@@ -821,6 +822,7 @@ func (s *S) Save(coll string, doc map[string]any) {
 				return
 			}
 			s.genIDs[nid] = true
+			model.NoteGenerated(nid)
 			nd := model.CopyDoc(doc)
 			nd["_id"] = nid
 			mc.Docs[nid] = nd
